@@ -96,8 +96,14 @@ def case(R, res):
     def bad(what, t):
         raise Violation("C14", f"{spec}: {what}", {"tag": t, "kind": spec["kind"], "sampling": spec.get("sampling"), "step": spec.get("step") is not None})
 
-    if hp.random_sample(7) != hp.random_sample(7):
-        bad("random_sample(7) is not deterministic", "determinism")
+    import random as _random
+    for sd in (7, 0, R.randint(0, 10 ** 6)):
+        a1, a2 = hp.random_sample(sd), hp.random_sample(sd)
+        if a1 != a2:
+            bad(f"random_sample({sd}) is not deterministic: {a1!r} then {a2!r}", "determinism")
+        want = hp.prob_to_value(float(_random.Random(sd).random()))
+        if a1 != want:
+            bad(f"random_sample({sd}) = {a1!r} is not the value of the seeded draw ({want!r})", "determinism")
 
     if spec["kind"] in ("int", "float"):
         lo, hi = Fraction(spec["lo"]), Fraction(spec["hi"])
